@@ -220,50 +220,65 @@ def shift_only_at_start(R, ctx, rid="C18.shift"):
 
 
 def closer_checked(R, ctx):
+    """AppendTextComment::text as a function of WHICH long-bracket closers occur in the text (finite abstraction)."""
+    import itertools
+    from .. import peval
+    from ..peval import Enum, Struct, UNKNOWN, make
     rid = "C18.closer"
-    R.rule(rid, "in AppendTextComment::text the closing bracket string written into the comment is a value that the loop "
-                "tested with `!content.contains(..)` (guard-before-act): the emitted closer cannot occur inside the text")
-    # the closure inside text(): find `contains` calls and the format! args
-    path = "rules::append_text_comment::AppendTextComment::text"
-    fn = ctx.lib.fns.get(path)
-    if not R.require(rid, "anchor:" + path, fn is not None, "", "function not found"):
+    lib = ctx.lib
+    R.rule(rid, "AppendTextComment::text, evaluated from its typed tree (format! included) on a multi-line text for every subset of the closers "
+                "`]]`, `]=]`, `]==]`, `]===]` occurring in it (the function depends on the text only through such `contains` queries): the "
+                "comment written is `--[=*[`, the text, and a closer of the SAME level that does not occur in the text -- so the text cannot "
+                "terminate the comment early; a single-line text is written after `--`, an empty text gives nothing")
+    ATC = "rules::append_text_comment::AppendTextComment"
+    fn = lib.fns.get(ATC + "::text")
+    TC = ATC.rsplit("::", 1)[0] + "::TextContent"
+    if not R.require(rid, "anchor:" + ATC + "::text", fn is not None and TC in lib.adts and ATC in lib.adts, "", "function / TextContent not found"):
         return
-    a = ctx.an.fa(path)
-    body = thir.body_of(fn)
-    contains_args = []
-    for n in thir.walk(body):
-        if n.get("k") == "Call" and n.get("fname") == "contains" and "str" in (n.get("fn") or ""):
-            contains_args.append(n)
-    R.require(rid, "anchor:contains", len(contains_args) >= 1, ctx.where(fn), "no str::contains test found in text()")
-    # variables tested by contains (second arg) -> the variable ids
-    tested = set()
-    for c in contains_args:
-        for v in thir.walk(c["args"][1]):
-            if v.get("k") == "Var":
-                tested.add(v["var"])
-    # every Break carrying a value inside the loop must carry a tested variable, and the break must be inside
-    # an `If` whose condition contains that contains() call negated
-    breaks = [n for n in thir.walk(body) if n.get("k") == "Break" and "e" in n]
-    ok_break = 0
-    for b in breaks:
-        vs = {v["var"] for v in thir.walk(b["e"]) if v.get("k") == "Var"}
-        guarded = False
-        p = a.parent.get(id(b))
-        child = b
-        while p is not None:
-            if p.get("k") == "If" and child is p.get("then"):
-                cond = p["cond"]
-                if cond.get("k") == "Unary" and cond["op"] == "Not":
-                    inner = cond["e"]
-                    if any(x is c for c in contains_args for x in thir.walk(inner)):
-                        guarded = True
-            child = p
-            p = a.parent.get(id(p))
-        good = bool(vs) and vs <= tested and guarded
-        ok_break += good
-        R.ob(rid, "text|break-value-tested", good, ctx.where(fn, b.get("ln")),
-             "the closer leaving the search loop is %s" % ("guarded by !content.contains(closer)" if good else "NOT the value tested with !content.contains(..)"))
-    R.require(rid, "anchor:break", len(breaks) >= 1, ctx.where(fn), "closer search loop not recognised")
+    content_field = [f["name"] for v in lib.adts[ATC]["variants"] for f in v["fields"] if TC in f.get("tys", "")]
+    if not R.require(rid, "anchor:text_content-field", len(content_field) == 1, ctx.adt_where(ATC), "field of type TextContent: %s" % content_field):
+        return
+
+    def run_(content):
+        def hook(pe, path, fname, args, node):
+            if fname in ("get_or_init", "get_or_insert_with", "get_or_try_init") and len(args) == 2:
+                return pe.apply(args[1], [], 0)
+            return NotImplemented
+        pe = peval.PEval(lib, ctx.an, hook)
+        rule = make(lib, ATC, {content_field[0]: Enum(TC, "Value", {"0": content})})
+        try:
+            v = pe.call_fn(fn, [rule, "project"])
+        except peval.OutOfFuel:
+            return UNKNOWN, ["no termination"]
+        if isinstance(v, Enum) and v.variant == "Ok":
+            return v.fields.get("0"), pe.unknown_reasons
+        return UNKNOWN, pe.unknown_reasons
+
+    def closer(k):
+        return "]" + "=" * k + "]"
+    bad, n = [], 0
+    for k in range(0, 5):
+        for L in itertools.combinations(range(4), k):
+            content = "first line\n" + "".join("x" + closer(l) for l in L) + "x"
+            out, why = run_(content)
+            n += 1
+            if not isinstance(out, str):
+                bad.append(("closers %s present" % [closer(l) for l in L], "comment not established %s" % why[:2]))
+                continue
+            m = None
+            for lvl in range(0, 8):
+                if out.startswith("--[" + "=" * lvl + "["):
+                    m = lvl
+                    break
+            if m is None or not out.endswith(closer(m)) or content not in out[len("--[" + "=" * m + "["):len(out) - len(closer(m))]:
+                bad.append(("closers %s present" % [closer(l) for l in L], "comment written is %r: opener / closer / text do not line up" % out[:60]))
+            elif closer(m) in content:
+                bad.append(("closers %s present" % [closer(l) for l in L], "closer %s of the comment occurs inside the text: the comment ends early and the rest of the text becomes code" % closer(m)))
+    R.ob(rid, "text|break-value-tested", not bad, ctx.where(fn), "for all %d closer subsets the emitted closer is absent from the text and matches the opener" % n if not bad else "%s: %s" % bad[0])
+    R.require(rid, "floor:subsets", n >= 16, ctx.where(fn), "%d subsets" % n)
+    for label, content, want in (("single-line", "note ]] here", "--note ]] here"), ("empty", "", "")):
+        out, why = run_(content)
+        R.ob(rid, "text|%s" % label, out == want, ctx.where(fn), "%r -> %r (expected %r) %s" % (content, out, want, why[:1] if out != want else ""))
 
 
 def run(R, ctx):
